@@ -258,10 +258,12 @@ class Check:
             "wall_s": round(wall, 2),
             "violations": len(self.violations),
         }
-        os.makedirs(EVIDENCE, exist_ok=True)
-        tmp = os.path.join(EVIDENCE, ".%s.%d.tmp" % (self.pid, os.getpid()))
+        # a --replay run evaluates one case: its record must not replace the evidence of the last full run
+        evdir = os.path.join(OUT, "evidence-replay") if getattr(self, "is_replay", False) else EVIDENCE
+        os.makedirs(evdir, exist_ok=True)
+        tmp = os.path.join(evdir, ".%s.%d.tmp" % (self.pid, os.getpid()))
         json.dump(ev, open(tmp, "w"), indent=1, default=str)
-        os.replace(tmp, os.path.join(EVIDENCE, self.pid + ".json"))
+        os.replace(tmp, os.path.join(evdir, self.pid + ".json"))
         for key, (ent, cnt, what) in sorted(self.known_hits.items()):
             print("KNOWN-FINDING: property=%s %s [%s] (x%d)" % (self.pid, ent.get("what", what), key, cnt))
         seen = set()
